@@ -535,7 +535,7 @@ theorem C09_in_block (close : Rat → Rat → Bool) (st : St) (items : List MIte
   simp [Spec.CellData.allDataCardsRead, h2, h3]
 
 example : ∃ items, writeToFile closeGen
-    { cells := [⟨1, [⟨0, 1, [0]⟩], some 3, some 2, false, none, none, false, Flags.default⟩], mode := [0],
+    { cells := [⟨1, [⟨0, 1, [0]⟩], some 3, some 2, false, none, none, false, false, Flags.default⟩], mode := [0],
       flags := Flags.default, volCalc := true, dataInputs := [none] } = .ok items ∧
     Spec.CellData.dataCards (render items) ≠ [] := by
   refine ⟨_, rfl, ?_⟩
@@ -698,7 +698,9 @@ theorem C09_no_spurious (close : Rat → Rat → Bool) (st : St) (hw : DataInput
       · simp at hv
       · rename_i hcx
         cases hl : c.fill with
-        | none => simp [hasInformation, hl]; simpa using hcx
+        | none =>
+          have hcx' : c.fillComplex = false ∧ c.fillMulti = false := by simpa using hcx
+          simp [hasInformation, hl, hcx'.2]
         | some n => simp [hl] at hv
   rw [formatDataInst_nonimp close st k hk] at hcs
   split at hcs
@@ -757,57 +759,67 @@ theorem C09_same_meaning (close : Rat → Rat → Bool) (st : St) (hw : DataInpu
     rfl
   · rw [C09_no_spurious close { st with flags := f1 } hw items1 h1 i c hc k hk p hv,
       C09_no_spurious close { st with flags := f2 } hw items2 h2 i c hc k hk p hv]
-  · -- only a complex FILL has no value: it stays on the cell card under both assignments (or the write is refused)
+  · -- only a FILL with a transform / a matrix has no value: it stays on the cell card under both assignments
+    -- (when the cell has such a fill to print, a write with FILL in the data block is refused)
     cases k with
     | imp => exact absurd rfl hk
     | vol => simp [treeValue] at hv
     | u => simp [treeValue] at hv
     | lat => simp [treeValue] at hv
     | fill =>
-      have hcx : c.fillComplex = true := by
-        simp only [treeValue] at hv
-        split at hv
-        · assumption
-        · simp at hv
-      have refuse : ∀ f items, writeToFile close { st with flags := f } = .ok items → f.get K.fill = false := by
+      have tbl : ∀ f items, writeToFile close { st with flags := f } = .ok items →
+          (table (render items) i (convK K.fill) p).map (·.2)
+            = if hasInformation c K.fill then (cellValue c K.fill).toList else [] := by
         intro f items hwr
         obtain ⟨cs, hcs⟩ := write_inst_ok close { st with flags := f } items hwr K.fill
-        cases hf : f.get K.fill with
-        | false => rfl
+        rw [table_write close { st with flags := f } hw items hwr i c hc K.fill p cs hcs,
+          cellEnt_inst close _ c K.fill (by decide) p]
+        rw [formatDataInst_nonimp close _ K.fill (by decide)] at hcs
+        cases hi : hasInformation c K.fill with
+        | false =>
+          -- nothing on the cell card; the data-block card, if any, was collected from every cell: refused
+          split at hcs
+          · cases hvs : collectNewValues K.fill st.cells with
+            | error e => simp [hvs, Except.map] at hcs
+            | ok vs =>
+              obtain ⟨v', hv', _⟩ := collect_get K.fill st.cells vs hvs i c hc
+              rw [hv] at hv'
+              cases hv'
+          · simp at hcs
+            subst hcs
+            simp [prints, ent, dataEntries]
         | true =>
-          exfalso
-          rw [formatDataInst_nonimp close _ K.fill (by decide)] at hcs
           have hany : st.cells.any (fun d => hasInformation d K.fill) = true := by
             rw [List.any_eq_true]
-            exact ⟨c, List.mem_of_getElem? hc, by simp [hasInformation, hcx]⟩
-          simp only [prints, hf, hany] at hcs
-          cases hvs : collectNewValues K.fill st.cells with
-          | error e => simp [hvs, Except.map] at hcs
-          | ok vs =>
-            obtain ⟨v', hv', _⟩ := collect_get K.fill st.cells vs hvs i c hc
-            rw [hv] at hv'
-            cases hv'
-      have g1 := refuse f1 items1 h1
-      have g2 := refuse f2 items2 h2
-      obtain ⟨cs1, hcs1⟩ := write_inst_ok close { st with flags := f1 } items1 h1 K.fill
-      obtain ⟨cs2, hcs2⟩ := write_inst_ok close { st with flags := f2 } items2 h2 K.fill
-      rw [table_write close { st with flags := f1 } hw items1 h1 i c hc K.fill p cs1 hcs1,
-        table_write close { st with flags := f2 } hw items2 h2 i c hc K.fill p cs2 hcs2]
-      rw [formatDataInst_nonimp close _ K.fill (by decide)] at hcs1 hcs2
-      simp [prints, g1] at hcs1
-      simp [prints, g2] at hcs2
-      subst hcs1; subst hcs2
-      simp [cellEnt_inst, prints, g1, g2, ent, dataEntries]
+            exact ⟨c, List.mem_of_getElem? hc, hi⟩
+          cases hf : f.get K.fill with
+          | true =>
+            exfalso
+            simp only [prints, hf, hany] at hcs
+            cases hvs : collectNewValues K.fill st.cells with
+            | error e => simp [hvs, Except.map] at hcs
+            | ok vs =>
+              obtain ⟨v', hv', _⟩ := collect_get K.fill st.cells vs hvs i c hc
+              rw [hv] at hv'
+              cases hv'
+          | false =>
+            simp [prints, hf] at hcs
+            subst hcs
+            simp [prints, hf, ent, dataEntries, cellValue]
+      rw [tbl f1 items1 h1, tbl f2 items2 h2]
 
-/-- FILL with a transform or a matrix cannot be printed in the data block: the write is refused (`ValueError`),
-    it never writes a vector without the cell's fill. -/
+/-- FILL with a transform or a matrix cannot be printed in the data block: when such a cell has a fill to print and
+    FILL goes to the data block the write is refused (`ValueError`); it never writes a vector without that fill. -/
 theorem C09_fill_complex_refused (close : Rat → Rat → Bool) (st : St) (c : Cell) (hc : c ∈ st.cells)
-    (hx : c.fillComplex = true) (hf : st.flags.get K.fill = true) :
+    (hx : c.fillComplex = true ∨ c.fillMulti = true) (hi : hasInformation c K.fill = true)
+    (hf : st.flags.get K.fill = true) :
     formatDataInst close st K.fill = .error .valueError := by
   rw [formatDataInst_nonimp close st K.fill (by decide)]
   have hany : st.cells.any (fun d => hasInformation d K.fill) = true := by
-    rw [List.any_eq_true]; exact ⟨c, hc, by simp [hasInformation, hx]⟩
+    rw [List.any_eq_true]; exact ⟨c, hc, hi⟩
   simp only [prints, hf, hany]
+  have hxe : (c.fillComplex || c.fillMulti) = true := by
+    rcases hx with h | h <;> simp [h]
   have : ∀ cells : List Cell, c ∈ cells → collectNewValues K.fill cells = .error .valueError := by
     intro cells
     induction cells with
@@ -815,14 +827,13 @@ theorem C09_fill_complex_refused (close : Rat → Rat → Bool) (st : St) (c : C
     | cons c0 rest ih =>
       intro h
       simp only [collectNewValues]
-      by_cases e : c0.fillComplex = true
+      by_cases e : (c0.fillComplex || c0.fillMulti) = true
       · simp [treeValue, e]
       · rcases List.mem_cons.mp h with rfl | h'
-        · exact absurd hx e
-        · simp [treeValue, e, ih h']
+        · exact absurd hxe e
+        · have e' : (c0.fillComplex || c0.fillMulti) = false := by simpa using e
+          simp [treeValue, e', ih h']
   simp [this st.cells hc, Except.map]
-
-
 
 theorem step_dataInputs (st : St) (op : Op) : (step st op).1.dataInputs = st.dataInputs := by
   cases op <;> simp only [step] <;> (repeat' split) <;> rfl
@@ -860,10 +871,10 @@ theorem C09_history (close : Rat → Rat → Bool) (st : St) (hw : DataInputsOnc
 /-- non-vacuity: a history with an append, a removal, a move, an edit and a flag change on a concrete state; the
     final write succeeds and puts the volume of the moved cell at its new index in the data block -/
 example :
-    let st : St := { cells := [⟨1, [⟨0, 1, [0]⟩], some 3, some 2, false, none, none, false, Flags.default⟩,
-                               ⟨2, [⟨0, 1, [0]⟩], none, some 0, false, none, none, false, Flags.default⟩],
+    let st : St := { cells := [⟨1, [⟨0, 1, [0]⟩], some 3, some 2, false, none, none, false, false, Flags.default⟩,
+                               ⟨2, [⟨0, 1, [0]⟩], none, some 0, false, none, none, false, false, Flags.default⟩],
                      mode := [0], flags := ⟨false, false, false, false, false⟩, volCalc := true, dataInputs := [none] }
-    let ops := [Op.append ⟨3, [⟨0, 0, [0]⟩], some 5, none, false, none, none, false, ⟨false, false, false, false, false⟩⟩,
+    let ops := [Op.append ⟨3, [⟨0, 0, [0]⟩], some 5, none, false, none, none, false, false, ⟨false, false, false, false, false⟩⟩,
                 Op.moveEnd 0, Op.setVol 0 (some 7), Op.remove 1, Op.setFlag K.vol true]
     DataInputsOnce st ∧ ∃ items, writeToFile closeGen (run st ops) = .ok items ∧
       table (render items) 1 (convK K.vol) 0 = [(Blk.data, 3)] ∧ table (render items) 0 (convK K.vol) 0 = [(Blk.data, 7)] := by
@@ -1047,7 +1058,7 @@ theorem C09_imp_cell_once (close : Rat → Rat → Bool) (st : St) (hw : DataInp
     rfl
 
 example :
-    let c : Cell := ⟨1, [⟨0, 1, [0, 1]⟩, ⟨1, 1, [0, 1]⟩, ⟨2, 2, [2]⟩], none, some 0, false, none, none, false, Flags.default⟩
+    let c : Cell := ⟨1, [⟨0, 1, [0, 1]⟩, ⟨1, 1, [0, 1]⟩, ⟨2, 2, [2]⟩], none, some 0, false, none, none, false, false, Flags.default⟩
     (∀ e ∈ c.imp, e.p ∈ e.cl) ∧
     cellEnt (impFormatCell (fun a b => a == b) c.imp c.imp []) K.imp 1 = [1] ∧
     cellEnt (impFormatCell (fun a b => a == b) c.imp c.imp []) K.imp 2 = [2] := by
